@@ -24,21 +24,34 @@ const (
 //	/verif/harness/<pkgdir>/<f>.go   -> /repo/<pkgdir>/zz_verif_<f>.go
 func overlayFiles() map[string]string {
 	out := map[string]string{}
-	root := filepath.Join(verifDir, "harness")
-	filepath.Walk(root, func(p string, info os.FileInfo, err error) error {
-		if err != nil || info.IsDir() || !strings.HasSuffix(p, ".go") {
+	roots := []string{filepath.Join(verifDir, "harness")}
+	// GOSYM_HARNESS_EXTRA: additional private harness roots (work in progress of one developer)
+	for _, r := range strings.Split(os.Getenv("GOSYM_HARNESS_EXTRA"), ":") {
+		if r != "" {
+			roots = append(roots, r)
+		}
+	}
+	for ri, root := range roots {
+		root := root
+		prefix := "zz_verif_"
+		if ri > 0 {
+			prefix = fmt.Sprintf("zz_verif_x%d_", ri)
+		}
+		filepath.Walk(root, func(p string, info os.FileInfo, err error) error {
+			if err != nil || info.IsDir() || !strings.HasSuffix(p, ".go") {
+				return nil
+			}
+			rel, _ := filepath.Rel(root, p)
+			dir, file := filepath.Split(rel)
+			dir = strings.TrimSuffix(dir, "/")
+			if dir == "verifnd" {
+				out[filepath.Join(repoDir, "internal/verifnd", file)] = p
+			} else {
+				out[filepath.Join(repoDir, dir, prefix+file)] = p
+			}
 			return nil
-		}
-		rel, _ := filepath.Rel(root, p)
-		dir, file := filepath.Split(rel)
-		dir = strings.TrimSuffix(dir, "/")
-		if dir == "verifnd" {
-			out[filepath.Join(repoDir, "internal/verifnd", file)] = p
-		} else {
-			out[filepath.Join(repoDir, dir, "zz_verif_"+file)] = p
-		}
-		return nil
-	})
+		})
+	}
 	return out
 }
 
